@@ -64,6 +64,16 @@ package meta
 //@   property C02
 //@   loop 1 iteration [already_marked_object_is_not_counted_again] garbKeyPresent() ==> diff.NewGarbage == old(diff.NewGarbage) && diff.PayloadDiff == old(diff.PayloadDiff)
 
+// The payload a removal takes off the container's size is that of an object whose header
+// is stored in this metabase: the header lookups in the marking paths are raw (no header is
+// reconstructed for a virtual split parent - its parts are stored objects of their own and
+// are subtracted one by one).
+//@ callrule c02_stored_headers_only in markGarbageInContainer, handleObjectWithAssociation
+//@   property C02
+//@   callee metabase.get
+//@   pureeffect
+//@   requires [raw_lookup_no_virtual_parent] a3
+
 //@ ghost pred metaDiffGC() int
 //@ ghost pred metaDiffPhy() int
 //@ ghost pred metaDiffPayload() int64
